@@ -6,7 +6,7 @@ http1.HostClient against scripted peers; hook H2 logs one event per critical sec
 validated by TLC against spec/ConnPoolTrace.tla.  Thorough: bigger spec configurations, liveness, thousands of
 runs and replay of TLC-simulated schedules through the gate hooks.
 """
-import concurrent.futures, glob, json, os, random
+import concurrent.futures, glob, json, os, random, re
 from . import lib
 
 FW_SETS = [
@@ -52,9 +52,46 @@ def run_cases(ctx, drv, cases, outdir, par, repeat=1, timeout=900):
             for c in ch:
                 f.write(json.dumps(c, separators=(",", ":")) + "\n")
         jobs.append((cf, os.path.join(outdir, "trace_%02d.ndjson" % i)))
+    def one(j):
+        try:
+            lib.run_driver(drv, ["-cases", j[0], "-out", j[1], "-repeat", repeat], timeout=timeout)
+        except lib.Infra as e:
+            if not crashed_in_hertz(str(e)):
+                raise
+            isolate(drv, j[0], j[1], repeat)
     with concurrent.futures.ThreadPoolExecutor(max_workers=par) as ex:
-        list(ex.map(lambda j: lib.run_driver(drv, ["-cases", j[0], "-out", j[1], "-repeat", repeat], timeout=timeout), jobs))
+        list(ex.map(one, jobs))
     return [j[1] for j in jobs]
+
+
+def crashed_in_hertz(msg):
+    return ("panic:" in msg or "fatal error:" in msg) and "cloudwego/hertz/pkg" in msg
+
+
+def isolate(drv, casefile, tracefile, repeat):
+    """The driver process died of a panic / fatal error raised in a goroutine of the code under test (background
+    dialer, reaper), which the driver cannot recover.  Run the cases of this chunk one process each; a case whose
+    process dies again is recorded as Case + Panic (no specification action => rejected)."""
+    lib.log("driver crashed inside hertz code; running the cases of %s one by one" % os.path.basename(casefile))
+    with open(tracefile, "w") as out:
+        for k, line in enumerate(open(casefile)):
+            cf, tf = casefile + ".one", tracefile + ".one"
+            with open(cf, "w") as f:
+                f.write(line)
+            try:
+                lib.run_driver(drv, ["-cases", cf, "-out", tf, "-repeat", repeat], timeout=120)
+                out.write(open(tf).read())
+            except lib.Infra as e:
+                if not crashed_in_hertz(str(e)):
+                    raise
+                c = json.loads(line)
+                c["ev"] = "Case"
+                msg = [l for l in str(e).splitlines() if l.startswith("panic:") or l.startswith("fatal error:")]
+                where = [l.strip() for l in str(e).splitlines() if "cloudwego/hertz/pkg" in l and "(" in l]
+                out.write(json.dumps(c, separators=(",", ":")) + "\n")
+                out.write(json.dumps({"ev": "Panic", "k": "?", "p": 0, "msg": (msg or ["crash"])[0][:200],
+                                      "where": (where or [""])[0][:200]}) + "\n")
+                out.write(json.dumps({"ev": "End"}) + "\n")
 
 
 def rerun(ctx, case_lines):
@@ -64,14 +101,15 @@ def rerun(ctx, case_lines):
     c = json.loads(case_lines[0])
     c.pop("ev", None)
     d = ctx.sub("rerun_%d" % len(os.listdir(ctx.scratch)))
-    traces = run_cases(ctx, drv, [c], d, 1, repeat=10)
-    r = lib.validate(ctx, "ConnPoolTrace", "ConnPoolTrace.cfg", traces, count=False, env=id_env(traces))
     known = lib.load_known(ctx.pid)
-    lines = lib.read_lines(traces[0])
-    for ln in r[0][1]:
-        ev = json.loads(lines[ln - 1]) if ln - 1 < len(lines) else None
-        if not lib.match_known(known, c, ev):
-            return True
+    for rep in (1, 9):
+        traces = run_cases(ctx, drv, [c], os.path.join(d, "r%d" % rep), 1, repeat=rep)
+        r = lib.validate(ctx, "ConnPoolTrace", "ConnPoolTrace.cfg", traces, count=False, env=id_env(traces))
+        lines = lib.read_lines(traces[0])
+        for ln in r[0][1]:
+            ev = json.loads(lines[ln - 1]) if ln - 1 < len(lines) else None
+            if not lib.match_known(known, c, ev):
+                return True
     return False
 
 
@@ -86,14 +124,20 @@ def id_env(traces):
     return {"VERIF_NC": mc + 1, "VERIF_NW": mw + 1}
 
 
+REPLAY = {}
+
+
 def stats(traces):
     per_ev, cases, nontrivial = {}, 0, 0
+    REPLAY.clear()
     for t in traces:
         seen = set()
         for line in open(t):
             r = json.loads(line)
             ev = r["ev"]
             per_ev[ev] = per_ev.get(ev, 0) + 1
+            if ev == "Quiescent":
+                REPLAY[r.get("replay", "none")] = REPLAY.get(r.get("replay", "none"), 0) + 1
             if ev == "Case":
                 cases += 1
                 seen = set()
@@ -120,7 +164,7 @@ def run(ctx):
 
     # 2. seeded cases
     rng = random.Random(ctx.seed * 1000003 + (0 if q else 17))
-    ncases = 800 if q else 6000
+    ncases = 800 if q else 20000
     cases = [dict(MINIMAL_CTX)] + [gen_case(rng, i + 1, q) for i in range(ncases)]
     if not q:
         cases += schedule_cases(ctx, len(cases))
@@ -135,6 +179,8 @@ def run(ctx):
     env = id_env(traces)
     res = lib.validate(ctx, "ConnPoolTrace", "ConnPoolTrace.cfg", traces, timeout=1500, par=par, env=env)
     lib.handle_rejections(ctx, res, lambda cl: rerun(ctx, cl))
+    if ctx.violations:
+        return      # the verdict is exit 1; self-tests need accepted traces
 
     # 5. binding self-tests
     clean = pick_clean_trace(traces, res)
@@ -177,6 +223,8 @@ def run(ctx):
     ctx.cov.update({
         "evaluations": nrun, "distinct_nontrivial": nontrivial, "exhaustive": False,
         "traces_validated_against_impl": nrun, "events_per_kind": per_ev,
+        "schedule_replay": {"schedules_from_tlc_simulate": REPLAY.get("ok", 0) + REPLAY.get("failed", 0),
+                            "replayed_to_the_end": REPLAY.get("ok", 0), "unreplayable": REPLAY.get("failed", 0)},
         "samples": [cases[1], cases[min(7, len(cases) - 1)], {"recorded_trace": [json.loads(x) for x in tl[s - 1:min(e, s + 60)]]}],
         "rule": "Cases are drawn from the seed: N in 2..4 goroutines x M in 2..4 requests, MaxConns 1..4, waiting for a free "
                 "connection on/off (1..20 ms), per-exchange peer behaviour from {ok, ok then silent close while idle, ok + "
@@ -190,7 +238,7 @@ def run(ctx):
         "hook H2 (build tag verif) logs inside the critical sections of client.go; file order of the trace = order in which "
         "events were taken under the recorder's lock, which is consistent with connsLock / w.mu and with program order",
         "the scripted in-memory connection (vnet) turns a read deadline into an immediate timeout: stalls cost no wall-clock, so "
-        "the timeout bound is only exercised against hangs (watchdog at 8 s), not against slow progress",
+        "the timeout bound is only exercised against hangs (watchdog at 3 s), not against slow progress",
         "TLC and the CommunityModules Json reader are trusted; goroutine identity is taken from runtime.Stack",
         "write failures, TLS, proxies, streamed response bodies and custom retry functions are not exercised",
     ]
@@ -216,8 +264,94 @@ def pick_clean_trace(traces, res):
 
 
 def thorough_spec(ctx):
-    pass
+    lib.spec_check(ctx, "ConnPool", "ConnPool_mc_thorough.cfg", workers=12, timeout=1500,
+                   note="3 callers x 1 request, MaxConns 1..2, waiting on/off, all fault kinds (<= 3 faults), SYMMETRY")
+    # with -coverage: every action of the specification must have been taken (vacuity guard)
+    r = lib.tlc(ctx, "ConnPool", "ConnPool_mc_sys.cfg", workers=12, timeout=1800, extra=["-coverage", "1"])
+    if not r.ok:
+        raise lib.Infra("specification ConnPool/ConnPool_mc_sys.cfg does not satisfy its properties or TLC failed:\n" + r.tail(60))
+    cov = {}
+    for m in re.finditer(r"^<(\w+) line \d+, col \d+ to line \d+, col \d+ of module ConnPool[^>]*>: (\d+):(\d+)", r.out, re.M):
+        cov[m.group(1)] = max(cov.get(m.group(1), 0), int(m.group(3)))
+    dead = sorted(a for a, n in cov.items() if n == 0)
+    if dead or len(cov) < 30:
+        raise lib.Infra("vacuity guard: actions never taken in ConnPool_mc_sys.cfg: %s (%d actions seen)" % (dead, len(cov)))
+    ctx.cov["states"] += r.distinct
+    ctx.cov["transitions"] += r.generated
+    ctx.cov["spec_checks"].append({"module": "ConnPool", "cfg": "ConnPool_mc_sys.cfg", "distinct_states": r.distinct,
+                                   "states_generated": r.generated, "wall_s": round(r.wall, 1), "actions_covered": len(cov),
+                                   "note": "2 callers x 2 requests with the idle reaper and CloseIdleConnections running "
+                                           "concurrently; -coverage: every action taken at least once"})
+    lib.log("spec ConnPool/ConnPool_mc_sys.cfg: %d distinct states, %.1fs, %d actions all covered" % (r.distinct, r.wall, len(cov)))
+    lib.spec_check(ctx, "ConnPool", "ConnPool_live.cfg", workers=4, timeout=900,
+                   note="liveness: Progress (every call that entered Do leaves it) under per-process weak fairness")
+    # the code as written (no gauge decrement on the ctx.Done() return) must violate QuiescentOK in the model
+    r = lib.tlc(ctx, "ConnPool", "ConnPool_asis.cfg", workers=1, timeout=300)
+    v = r.violated() or ""
+    if "QuiescentOK" not in v:
+        raise lib.Infra("ConnPool_asis.cfg: expected a counterexample to QuiescentOK on the as-written model, got: %s\n%s"
+                        % (v, r.tail(20)))
+    ctx.cov["spec_checks"].append({"module": "ConnPool", "cfg": "ConnPool_asis.cfg", "distinct_states": r.distinct,
+                                   "note": "as-written model (AsWritten = TRUE): TLC reports QuiescentOK violated, as required"})
 
 
-def schedule_cases(ctx, first_id):
-    return []
+def history_to_case(hist, cid, seed, max_conns, wait):
+    """Project one simulated behaviour of ConnPoolSim onto what the driver needs: the gate schedule and, per caller,
+    the script of environment decisions (request kind, cancellation, dial results, peer behaviour per exchange)."""
+    calls, bg, sched = {}, [], []
+    pre = {}
+    dial_ord, live = {}, {}
+    nd = 0
+    for h in hist:
+        k, p, x = h["k"], h["p"], h["x"]
+        if k == "c":
+            cl = calls.setdefault(str(p), [])
+            if x in ("get", "post"):
+                cl.append({"post": x == "post", "ctxPre": pre.pop(p, False), "ctxPostAt": 0, "exch": [], "dial": [], "_sent": 0})
+            elif x == "ctxpre":
+                pre[p] = True
+            elif x == "ctxpost":
+                cl[-1]["ctxPostAt"] = cl[-1]["_sent"]
+            elif x == "sent":
+                cl[-1]["_sent"] += 1
+            elif x in ("dialok", "dialfail"):
+                cl[-1]["dial"].append(x == "dialok")
+            elif x in ("ok", "okdead", "okclose", "eof0", "eofhdr", "eofbody", "stall0"):
+                cl[-1]["exch"].append(x)
+            pid = p
+        else:
+            if p not in live:
+                nd += 1
+                live[p] = nd
+            pid = live[p]
+            if x in ("dialok", "dialfail"):
+                bg.append(x == "dialok")
+            if x in ("end", "handoff"):
+                live.pop(p)
+        for a in h["a"]:
+            sched.append({"k": k, "p": pid, "a": a, "t": x == "timer"})
+    for cl in calls.values():
+        for c in cl:
+            c.pop("_sent")
+    n = max(int(g) for g in calls)
+    return {"id": cid, "seed": seed, "n": n, "m": max(len(v) for v in calls.values()), "maxConns": max_conns,
+            "wait": wait, "waitMs": 60 if wait else 0, "readMs": 50, "cleaner": False, "closeIdle": False, "yield": 0,
+            "fw": {"ok": 100}, "pDialErr": 0, "pPost": 0, "pCtxPre": 0, "pCtxPost": 0, "pReqTmo": 0,
+            "sched": sched, "calls": calls, "bgDial": bg}
+
+
+def schedule_cases(ctx, first_id, num=4000):
+    """TLC -simulate on ConnPoolSim writes behaviours (with cf = [max, wait] as first history... taken from the
+    printed configuration line) that are turned into schedule cases."""
+    r = lib.tlc(ctx, "ConnPoolSim", "ConnPoolSim.cfg", workers=1, timeout=900, simulate="num=%d" % num, depth=250)
+    out = []
+    for line in r.out.splitlines():
+        line = line.strip()
+        if line.startswith('"@@H'):
+            body = json.loads(lib.tla_unquote(line[1:-1])[3:])
+            cfg, hist = body[0], body[1:]
+            out.append(history_to_case(hist, first_id + len(out), ctx.seed * 100000 + len(out), cfg["p"], cfg["x"] == "wait"))
+    if len(out) < num // 2:
+        raise lib.Infra("ConnPoolSim produced only %d schedules:\n%s" % (len(out), r.tail(30)))
+    lib.log("TLC simulated %d schedules (%.1fs)" % (len(out), r.wall))
+    return out
